@@ -105,11 +105,54 @@ func itemOf(name string) (int, bool) {
 	return n, err == nil
 }
 
+// faultSwitch is the environment's fault mode (LifecycleModel: st.fault), shared by the user-supplied
+// components of one world: "" / "none" = no fault; trace, log: "comp" = every processor's and
+// exporter's Shutdown / ForceFlush returns errInjected after having done its part; metric: "callback"
+// (the observable callback fails in every collection), "producer" (the external Producer of every
+// reader fails), "exporter" (Export / ForceFlush / Shutdown of the readers' exporters fail).
+type faultSwitch struct{ v atomic.Value }
+
+func (f *faultSwitch) set(mode string) {
+	if f != nil {
+		f.v.Store(mode)
+	}
+}
+
+func (f *faultSwitch) is(mode string) bool {
+	if f == nil {
+		return false
+	}
+	m, _ := f.v.Load().(string)
+	return m == mode
+}
+
+func (f *faultSwitch) mode() string {
+	if f == nil {
+		return "none"
+	}
+	if m, _ := f.v.Load().(string); m != "" {
+		return m
+	}
+	return "none"
+}
+
+var errInjected = errors.New("injected fault")
+
+// failIf returns errInjected (joined with err) when the switch is in mode.
+func (f *faultSwitch) failIf(mode string, err error) error {
+	if f.is(mode) {
+		return errors.Join(err, errInjected)
+	}
+	return err
+}
+
 // errClass maps a returned error onto the classes the specification talks about.
 func errClass(err error) string {
 	switch {
 	case err == nil:
 		return ""
+	case errors.Is(err, errInjected):
+		return "fault"
 	case errors.Is(err, sdkmetric.ErrReaderShutdown):
 		return "reader-shutdown"
 	case errors.Is(err, context.Canceled), errors.Is(err, context.DeadlineExceeded):
@@ -163,6 +206,7 @@ type compBase struct {
 	sh       *shaker
 	sdGate   *gate // holds the component's Shutdown (directed schedules)
 	frozen   *bool // log world: deliveries after the provider went down are outside the projection
+	fault    *faultSwitch
 }
 
 // ---------------------------------------------------------------- trace components
@@ -195,7 +239,7 @@ func (e *tExp) Shutdown(context.Context) error {
 	e.c.f.mu.Lock()
 	e.c.f.xsd++
 	e.c.f.mu.Unlock()
-	return nil
+	return e.c.fault.failIf("comp", nil)
 }
 
 // tProc is registered with the real TracerProvider: a user processor ("rec") or a wrapper
@@ -213,8 +257,8 @@ type bspOpts struct {
 	timeout        time.Duration
 }
 
-func newTProc(id, kind string, em *emitter, sh *shaker, bo bspOpts) *tProc {
-	p := &tProc{compBase: compBase{id: id, kind: kind, f: newFacts(), em: em, sh: sh}, seen: map[string]bool{}}
+func newTProc(id, kind string, em *emitter, sh *shaker, bo bspOpts, fs *faultSwitch) *tProc {
+	p := &tProc{compBase: compBase{id: id, kind: kind, f: newFacts(), em: em, sh: sh, fault: fs}, seen: map[string]bool{}}
 	var exp sdktrace.SpanExporter
 	if kind == "simple" || kind == "batch" {
 		exp = &tExp{c: &p.compBase}
@@ -286,9 +330,9 @@ func (p *tProc) Shutdown(ctx context.Context) error {
 	p.sdGate.wait()
 	p.sh.point()
 	if p.inner != nil {
-		return p.inner.Shutdown(ctx)
+		return p.fault.failIf("comp", p.inner.Shutdown(ctx))
 	}
-	return nil
+	return p.fault.failIf("comp", nil)
 }
 
 func (p *tProc) ForceFlush(ctx context.Context) error {
@@ -297,9 +341,9 @@ func (p *tProc) ForceFlush(ctx context.Context) error {
 	p.f.mu.Unlock()
 	p.sh.point()
 	if p.inner != nil {
-		return p.inner.ForceFlush(ctx)
+		return p.fault.failIf("comp", p.inner.ForceFlush(ctx))
 	}
-	return nil
+	return p.fault.failIf("comp", nil)
 }
 
 // ---------------------------------------------------------------- log components
@@ -339,17 +383,17 @@ func (e *lExp) Shutdown(context.Context) error {
 	e.c.f.mu.Lock()
 	e.c.f.xsd++
 	e.c.f.mu.Unlock()
-	return nil
+	return e.c.fault.failIf("comp", nil)
 }
-func (e *lExp) ForceFlush(context.Context) error { return nil }
+func (e *lExp) ForceFlush(context.Context) error { return e.c.fault.failIf("comp", nil) }
 
 type lProc struct {
 	compBase
 	inner sdklog.Processor
 }
 
-func newLProc(id, kind string, em *emitter, sh *shaker, interval time.Duration, frozen *bool) *lProc {
-	p := &lProc{compBase: compBase{id: id, kind: kind, f: newFacts(), em: em, sh: sh, frozen: frozen}}
+func newLProc(id, kind string, em *emitter, sh *shaker, interval time.Duration, frozen *bool, fs *faultSwitch) *lProc {
+	p := &lProc{compBase: compBase{id: id, kind: kind, f: newFacts(), em: em, sh: sh, frozen: frozen, fault: fs}}
 	var exp sdklog.Exporter
 	if kind == "simple" || kind == "batch" {
 		exp = &lExp{c: &p.compBase}
@@ -394,17 +438,17 @@ func (p *lProc) Shutdown(ctx context.Context) error {
 	p.sdGate.wait()
 	p.sh.point()
 	if p.inner != nil {
-		return p.inner.Shutdown(ctx)
+		return p.fault.failIf("comp", p.inner.Shutdown(ctx))
 	}
-	return nil
+	return p.fault.failIf("comp", nil)
 }
 
 func (p *lProc) ForceFlush(ctx context.Context) error {
 	p.sh.point()
 	if p.inner != nil {
-		return p.inner.ForceFlush(ctx)
+		return p.fault.failIf("comp", p.inner.ForceFlush(ctx))
 	}
-	return nil
+	return p.fault.failIf("comp", nil)
 }
 
 // ---------------------------------------------------------------- metric components
@@ -444,15 +488,23 @@ func (e *mExp) Export(_ context.Context, rm *metricdata.ResourceMetrics) error {
 	e.c.f.last = v
 	e.c.f.mu.Unlock()
 	e.c.sh.point()
-	return nil
+	return e.c.fault.failIf("exporter", nil)
 }
-func (e *mExp) ForceFlush(context.Context) error { return nil }
+func (e *mExp) ForceFlush(context.Context) error { return e.c.fault.failIf("exporter", nil) }
 func (e *mExp) Shutdown(context.Context) error {
 	e.c.em.ev("ExpShutdown", "c", e.c.id)
 	e.c.f.mu.Lock()
 	e.c.f.xsd++
 	e.c.f.mu.Unlock()
-	return nil
+	return e.c.fault.failIf("exporter", nil)
+}
+
+// faultProducer is the external Producer registered on every reader (WithProducer): it contributes
+// nothing, and fails while the switch says "producer".
+type faultProducer struct{ fs *faultSwitch }
+
+func (p faultProducer) Produce(context.Context) ([]metricdata.ScopeMetrics, error) {
+	return nil, p.fs.failIf("producer", nil)
 }
 
 func (c *compBase) noteShutdown() {
@@ -490,18 +542,21 @@ type mReader interface {
 	sdkmetric.Reader
 }
 
-func newMReader(id, kind string, em *emitter, sh *shaker, interval time.Duration) (mReader, *compBase) {
-	c := &compBase{id: id, kind: kind, f: newFacts(), em: em, sh: sh}
+func newMReader(id, kind string, em *emitter, sh *shaker, interval time.Duration, fs *faultSwitch) (mReader, *compBase) {
+	c := &compBase{id: id, kind: kind, f: newFacts(), em: em, sh: sh, fault: fs}
 	if interval == 0 {
 		interval = time.Hour
 	}
+	prod := faultProducer{fs}
 	switch kind {
 	case "manual":
-		return &mManual{ManualReader: sdkmetric.NewManualReader(), c: c}, c
+		return &mManual{ManualReader: sdkmetric.NewManualReader(sdkmetric.WithProducer(prod)), c: c}, c
 	case "periodic":
-		return &mPeriodic{PeriodicReader: sdkmetric.NewPeriodicReader(&mExp{c: c}, sdkmetric.WithInterval(interval)), c: c}, c
+		return &mPeriodic{PeriodicReader: sdkmetric.NewPeriodicReader(&mExp{c: c}, sdkmetric.WithInterval(interval),
+			sdkmetric.WithProducer(prod)), c: c}, c
 	case "periodicnil":
-		return &mPeriodic{PeriodicReader: sdkmetric.NewPeriodicReader(nil, sdkmetric.WithInterval(interval)), c: c}, c
+		return &mPeriodic{PeriodicReader: sdkmetric.NewPeriodicReader(nil, sdkmetric.WithInterval(interval),
+			sdkmetric.WithProducer(prod)), c: c}, c
 	}
 	panic("unknown reader kind " + kind)
 }
@@ -523,6 +578,7 @@ type Op struct {
 	R   string `json:"r,omitempty"`   // reader (metric Collect)
 	Ctx string `json:"ctx,omitempty"` // "live" | "cancelled" | "deadline"
 	Via string `json:"via,omitempty"` // "old" | "new"
+	F   string `json:"f,omitempty"`   // Fault: the mode the environment switches to
 }
 
 type Out struct {
@@ -542,6 +598,7 @@ type State struct {
 	Exp   map[string][]int `json:"exp"`
 	Nexp  map[string]int   `json:"nexp"`
 	Last  map[string]int   `json:"last"`
+	Fault string           `json:"fault,omitempty"` // the environment's fault mode (not compared: the harness sets it)
 	Out   Out              `json:"out"`
 }
 
@@ -556,6 +613,7 @@ func sortedIDs[V any](m map[string]V) []string { return vh.SortedKeys(m) }
 // ---- trace world
 
 type tpWorld struct {
+	fault *faultSwitch
 	tp    *sdktrace.TracerProvider
 	comps map[string]*tProc
 	old   trace.Tracer
@@ -565,9 +623,9 @@ type tpWorld struct {
 }
 
 func newTPWorld(kinds map[string]string, init []string, em *emitter, sh *shaker, bo map[string]bspOpts) *tpWorld {
-	w := &tpWorld{comps: map[string]*tProc{}}
+	w := &tpWorld{comps: map[string]*tProc{}, fault: &faultSwitch{}}
 	for _, id := range sortedIDs(kinds) {
-		w.comps[id] = newTProc(id, kinds[id], em, sh, bo[id])
+		w.comps[id] = newTProc(id, kinds[id], em, sh, bo[id], w.fault)
 	}
 	opts := []sdktrace.TracerProviderOption{sdktrace.WithSampler(sdktrace.AlwaysSample())}
 	for _, id := range init {
@@ -594,6 +652,8 @@ func (w *tpWorld) apply(op Op) (out Out) {
 		}
 	}()
 	switch op.Op {
+	case "Fault":
+		w.fault.set(op.F)
 	case "Register":
 		w.tp.RegisterSpanProcessor(w.comps[op.P])
 	case "Unregister":
@@ -675,6 +735,7 @@ func (w *tpWorld) cleanup() {
 // ---- log world
 
 type lpWorld struct {
+	fault  *faultSwitch
 	lp     *sdklog.LoggerProvider
 	comps  map[string]*lProc
 	order  []string
@@ -684,14 +745,14 @@ type lpWorld struct {
 }
 
 func newLPWorld(kinds map[string]string, order []string, em *emitter, sh *shaker, interval time.Duration, freeze bool) *lpWorld {
-	w := &lpWorld{comps: map[string]*lProc{}, order: order}
+	w := &lpWorld{comps: map[string]*lProc{}, order: order, fault: &faultSwitch{}}
 	var opts []sdklog.LoggerProviderOption
 	var fz *bool
 	if freeze {
 		fz = &w.frozen
 	}
 	for _, id := range order {
-		w.comps[id] = newLProc(id, kinds[id], em, sh, interval, fz)
+		w.comps[id] = newLProc(id, kinds[id], em, sh, interval, fz, w.fault)
 		opts = append(opts, sdklog.WithProcessor(w.comps[id]))
 	}
 	w.lp = sdklog.NewLoggerProvider(opts...)
@@ -718,6 +779,8 @@ func (w *lpWorld) apply(op Op) (out Out) {
 		}
 	}()
 	switch op.Op {
+	case "Fault":
+		w.fault.set(op.F)
 	case "Shutdown":
 		ctx, cancel := mkctx(op.Ctx)
 		out.Err = errClass(w.lp.Shutdown(ctx))
@@ -771,6 +834,7 @@ func (w *lpWorld) cleanup() {
 // ---- metric world
 
 type mpWorld struct {
+	fault     *faultSwitch
 	mp        *sdkmetric.MeterProvider
 	readers   map[string]mReader
 	comps     map[string]*compBase
@@ -781,10 +845,10 @@ type mpWorld struct {
 }
 
 func newMPWorld(kinds map[string]string, order []string, em *emitter, sh *shaker, interval time.Duration) (w *mpWorld) {
-	w = &mpWorld{readers: map[string]mReader{}, comps: map[string]*compBase{}, order: order}
+	w = &mpWorld{readers: map[string]mReader{}, comps: map[string]*compBase{}, order: order, fault: &faultSwitch{}}
 	var opts []sdkmetric.Option
 	for _, id := range order {
-		r, c := newMReader(id, kinds[id], em, sh, interval)
+		r, c := newMReader(id, kinds[id], em, sh, interval, w.fault)
 		w.readers[id], w.comps[id] = r, c
 		opts = append(opts, sdkmetric.WithReader(r))
 	}
@@ -802,6 +866,13 @@ func newMPWorld(kinds map[string]string, order []string, em *emitter, sh *shaker
 		}
 		w.old = c
 	}()
+	func() {
+		// an observable instrument whose callback observes nothing, and fails while the switch says "callback"
+		defer func() { _ = recover() }()
+		fs := w.fault
+		_, _ = w.mp.Meter("c15-old").Int64ObservableGauge("c15.obs",
+			metric.WithInt64Callback(func(context.Context, metric.Int64Observer) error { return fs.failIf("callback", nil) }))
+	}()
 	return w
 }
 
@@ -817,6 +888,8 @@ func (w *mpWorld) apply(op Op) (out Out) {
 		}
 	}()
 	switch op.Op {
+	case "Fault":
+		w.fault.set(op.F)
 	case "Shutdown":
 		ctx, cancel := mkctx(op.Ctx)
 		out.Err = errClass(w.mp.Shutdown(ctx))
@@ -845,7 +918,7 @@ func (w *mpWorld) apply(op Op) (out Out) {
 		var rm metricdata.ResourceMetrics
 		err := w.readers[op.R].Collect(context.Background(), &rm)
 		out.Err = errClass(err)
-		if err == nil {
+		if err == nil || out.Err == "fault" { // a failing callback / producer: Collect returns data next to the error
 			out.Val = sumOf(&rm)
 		}
 	default:
